@@ -14,6 +14,34 @@ CLAIMED = {
                 "running interpreter's Unicode tables, field_prefix in SAFE_PREFIX. Scope-uniqueness obligations "
                 "(attribute/parameter/class/enum-member collisions) are not yet under contract.",
     },
+    "C13": {
+        "engines": ["B"],
+        "level": "proof",
+        "technique": "contract-based deductive verification: ast->z3 symbolic execution of the real convert_value "
+                     "bodies against per-kind contracts P1-P5, one validity query per path and clause",
+        "text": "For every property kind with a scalar default, every feasible path of the real convert_value is "
+                "explored for a fully symbolic JSON value and each contract clause (accept => equivalent typed code, "
+                "reject => diagnostic, no exception escapes, None stays None, Value passes through) is proved valid "
+                "on every path. Three input classes fail on the pinned tree and are known findings; two further "
+                "defects were repaired by fix: commits.",
+        "note": "Trusted: pyvc's encoding of the Python subset; assumed contracts of float()/int()/str()/repr()/"
+                "isoparse/UUID as uninterpreted functions (listed in the evidence). Floats are reals plus inf/nan. "
+                "Default routing through build/_property_from_ref/_merge_common_attributes: see level of C15/C20.",
+    },
+    "C02": {
+        "engines": ["F", "B"],
+        "level": "proof",
+        "technique": "contract-based deductive verification of generated code: from_dict/to_dict rendered by the real "
+                     "templates for schematic models, symbolically executed (ast->z3) against the round-trip contract",
+        "text": "For each schematic model (every property kind x required/optional x default x nullable, typed/untyped/"
+                "no additionalProperties, allOf composition; OpenAPI 3.0 and 3.1 spellings) the generated from_dict and "
+                "to_dict are executed symbolically on a fully symbolic schema-valid JSON object; to_dict(from_dict(src)) "
+                "== src, plain-JSON output, unmutated input and exception freedom are proved on every path; arrays and "
+                "additional properties of any size by a generic-element argument.",
+        "note": "Trusted: the symbolic semantics of the Python subset, assumed bijections isoparse/isoformat and "
+                "UUID/str on canonical forms, Enum lookup; the step from schematic models to all documents is an "
+                "induction over the property tree plus the frame argument (paper, DESIGN 2.4).",
+    },
 }
 
 _NOT_BUILT = "not built yet in this round (planned per DESIGN.md section 7); no claim is made"
